@@ -11,13 +11,13 @@ package main
 //   op=rmport s=H         -> H                       (VerifTryRemovePort)
 //   op=gda u=H d=H def=H  -> H                       (VerifGetDialAddr)
 //   op=net s=H            -> unix|tcp                (VerifDialNetworkTcpOrUnix)
-//   op=form hk=<p|6> h=H [p=H] [dk=<p|6|unix|raw> dh=H [dp=H]] def=H
+//   op=form hk=<p|6> h=H [p=H] [dk=<p|6|b|unix|raw> dh=H [dp=H]] def=H
 //                         -> trim=H da=H sn=H net=<unix|tcp>
 //
 // component dial: the REAL upstream.NewUpstream(addr, Opt{DialAddr, Control, TLSConfig}) and one
 // ExchangeContext.
 //   sch=<none|udp|tcp|tls|https|http|h3|quic|doq|tcp+pipeline|tls+pipeline> hk=<p|6> h=<host>
-//   [p=<port>] [path=</..>] [dk=<p|6|unix|raw> dh=<host|name> [dp=<port>]] [ns=<text>ip,...]
+//   [p=<port>] [path=</..>] [dk=<p|6|b|unix|raw> dh=<host|name> [dp=<port>]] [ns=<text>ip,...]
 //   or (no claim, model comparison only):  addr=<literal> [da=<literal>] [ns=...]
 //   -> res=<ok|newerr> ctl=<network|address[;...]|none> sname=<-|+name> sni=<-|+name> host=<-|+host>
 // The tokens PORT and @UNIX stand for the harness' own servers (substituted before the call and
@@ -118,6 +118,8 @@ func c17renderDial(kind, h, p string, hasPort bool) string {
 		return "@" + h
 	case "raw":
 		return h
+	case "b": // IPv6 address in brackets, no port
+		return "[" + h + "]"
 	case "6":
 		if hasPort {
 			return "[" + h + "]:" + p
@@ -376,8 +378,14 @@ func c17pureGen(r *rand.Rand, thorough bool, emit func(c, cat string)) {
 			c += " dk=unix dh=" + hx(c17randBytes(r, r.Intn(8), "", "abc/@:"))
 			cat += "-unix"
 		case 2:
-			c += " dk=raw dh=" + hx("["+func() string { t, _ := c17randV6(r, false); return t }()+"]")
-			cat += "-rawbracket"
+			if r.Intn(2) == 0 {
+				c += " dk=b dh=" + hx(func() string { t, _ := c17randV6(r, false); return t }())
+			} else {
+				x := c17randBytes(r, r.Intn(6), c17v6Forbidden, "0123456789abcdefABCDEF:.%")
+				y := c17randBytes(r, r.Intn(6), c17v6Forbidden, "0123456789abcdefABCDEF:.%")
+				c += " dk=b dh=" + hx(x+":"+y+":")
+			}
+			cat += "-dialbracketed"
 		default:
 			dk, dh := host()
 			c += " dk=" + dk + " dh=" + hx(dh)
@@ -744,12 +752,17 @@ func c17dialRun(cs string) string {
 			syscall.Flock(int(c17sinkLock.Fd()), syscall.LOCK_EX)
 			defer syscall.Flock(int(c17sinkLock.Fd()), syscall.LOCK_UN)
 		}
-		ips := map[netip.Addr]bool{}
+		var ips []netip.Addr // the loopback addresses of the case, in a fixed order
 		for _, a := range ns {
-			if a.IsLoopback() {
-				ips[a] = true
+			dup := false
+			for _, b := range ips {
+				dup = dup || a == b
+			}
+			if a.IsLoopback() && !dup {
+				ips = append(ips, a)
 			}
 		}
+		sort.Slice(ips, func(i, j int) bool { return ips[i].Less(ips[j]) })
 		bind := func(ip netip.Addr, p int) (net.PacketConn, string, netip.AddrPort, error) {
 			ap := netip.AddrPortFrom(ip, uint16(p))
 			network := "udp4"
@@ -827,7 +840,7 @@ func c17dialRun(cs string) string {
 				continue
 			}
 			var got []net.PacketConn
-			for ip := range ips {
+			for _, ip := range ips {
 				network := "udp4"
 				if ip.Is6() {
 					network = "udp6"
@@ -843,7 +856,7 @@ func c17dialRun(cs string) string {
 			}
 			livePort = p
 			k := 0
-			for ip := range ips {
+			for _, ip := range ips {
 				network := "udp4"
 				if ip.Is6() {
 					network = "udp6"
@@ -864,7 +877,7 @@ func c17dialRun(cs string) string {
 				ports[p] = true
 			}
 		}
-		for ip := range ips {
+		for _, ip := range ips {
 			for p := range ports {
 				pc, network, ap, err := bind(ip, p)
 				if err != nil {
@@ -1007,6 +1020,9 @@ func c17dialGen(r *rand.Rand, thorough bool, emit func(c, cat string)) {
 			c += " dk=unix dh=" + unixName
 		case "raw":
 			c += " dk=raw dh=" + unixName
+		case "b":
+			c += " dk=b dh=" + dh.text
+			ns = append(ns, dh.text+">"+dh.addr.String())
 		default:
 			c += " dk=" + dh.kind + " dh=" + dh.text
 			if dp != "" {
@@ -1026,13 +1042,16 @@ func c17dialGen(r *rand.Rand, thorough bool, emit func(c, cat string)) {
 			}
 			for _, hostKind := range []int{0, 1, 2} { // v4, domain, v6
 				for _, portMode := range []string{"", "num", "live"} {
-					for _, dialMode := range []string{"", "host", "hostport", "hostlive", "unixlive", "unix"} {
+					for _, dialMode := range []string{"", "host", "hostport", "hostlive", "bracket", "unixlive", "unix"} {
 						// quic based schemes are observed by local UDP sinks: loopback targets only
 						loop := quic || portMode == "live"
 						if quic && portMode == "" && dialMode != "hostport" && dialMode != "hostlive" && !e.lowPort {
 							continue // cannot bind the default port
 						}
-						if quic && dialMode == "host" && !e.lowPort {
+						if quic && (dialMode == "host" || dialMode == "bracket") && !e.lowPort {
+							continue
+						}
+						if dialMode == "bracket" && !e.v6 {
 							continue
 						}
 						h := c17genHost(r, hostKind, loop && dialMode == "", e.v6)
@@ -1052,6 +1071,16 @@ func c17dialGen(r *rand.Rand, thorough bool, emit func(c, cat string)) {
 							dh := dialHost(h, quic)
 							c = mk(sch, h, port, path, "h", dh, "", "")
 							cat += "/da-" + dh.kind
+						case "bracket": // an IPv6 address in brackets without port (e575f62)
+							var dh c17host
+							for {
+								dh = c17genHost(r, 2, quic, e.v6)
+								if c17nsKey(dh.text) != c17nsKey(h.text) {
+									break
+								}
+							}
+							c = mk(sch, h, port, path, "b", dh, "", "")
+							cat += "/da-[6]"
 						case "hostport":
 							dh := dialHost(h, quic)
 							c = mk(sch, h, port, path, "h", dh, numPort(), "")
